@@ -556,6 +556,53 @@ func E2E3(p *load.Program, r *report.Report, sets IOSets, opt E2Options) {
 					break
 				}
 			}
+			if bad == "" && tainted && len(nilIfs) > 0 {
+				// E2d: between the call and the test of its error no return may leave with another (or no) error: a
+				// return reached from the call without passing a block that tests the error must carry a value derived
+				// from it (otherwise the reader/writer failure is masked by whatever is returned there)
+				stop := map[*ssa.BasicBlock]bool{}
+				for _, iff := range nilIfs {
+					stop[iff.Block()] = true
+				}
+				fei := ssau.ErrorResultIndex(f.Signature)
+				seen := map[*ssa.BasicBlock]bool{}
+				var walk func(b *ssa.BasicBlock, from int)
+				walk = func(b *ssa.BasicBlock, from int) {
+					if bad != "" {
+						return
+					}
+					if from == 0 {
+						if seen[b] || stop[b] {
+							return
+						}
+						seen[b] = true
+					}
+					for i := from; i < len(b.Instrs); i++ {
+						if ret, ok := b.Instrs[i].(*ssa.Return); ok && fei >= 0 {
+							rv := ret.Results[fei]
+							if !d[rv] && !derivesOnEdge(rv, d, b, ret, errV) {
+								bad = fmt.Sprintf("the return at %s is reached from the %s call before its error is tested and does not return that error: a %s failure is masked", p.Pos(ret.Pos()), short, kind)
+							}
+							return
+						}
+					}
+					for _, s := range b.Succs {
+						walk(s, 0)
+					}
+				}
+				if !stop[call.Block()] || true {
+					// the test may sit in the call's own block (after the call): then nothing can return in between
+					inOwn := false
+					for _, iff := range nilIfs {
+						if iff.Block() == call.Block() {
+							inOwn = true
+						}
+					}
+					if !inOwn {
+						walk(call.Block(), ssau.IndexOf(call)+1)
+					}
+				}
+			}
 			if bad == "" && tainted {
 				// direct returns of a derived value through a lossy wrap
 				for v := range d {
